@@ -174,6 +174,8 @@ pub fn check(script: &Script) -> CaseResult {
 fn picture_bytes(limit: usize) -> impl Strategy<Value = B> {
     let l = limit.max(1);
     let max = (40 * l).min(65_536);
+    // rarely: many more chunks than usual (counters, thresholds)
+    let many = (1100 * l).min(8_000);
     let size = prop_oneof![
         1 => Just(0usize),
         1 => Just(1usize),
@@ -182,6 +184,7 @@ fn picture_bytes(limit: usize) -> impl Strategy<Value = B> {
         1 => Just(max),
     ]
     .prop_map(move |s| s.min(max));
+    let size = prop_oneof![40 => size, 1 => (max..=many.max(max)).boxed()];
     (size, any::<u8>(), any::<u8>(), any::<bool>()).prop_map(|(n, a, step, lookalike)| {
         let mut v: Vec<u8> = (0..n).map(|i| a.wrapping_add((i as u8).wrapping_mul(step | 1))).collect();
         let l = b"\nOK\nbinary: 3\nACK [5@0] {} x\n";
